@@ -22,7 +22,7 @@ var DHPrime, _ = new(big.Int).SetString(dhPrimeHex, 16)
 type Lie struct {
 	Step  string // resPQ | dhParams | dhInner | dhGen
 	Field string // nonce | server_nonce | fingerprints | answer_hash | new_nonce_hash | kind | g_a ...
-	How   string // flip | fresh | other | zero | fail | retry
+	How   string // flip | fresh | other | zero | fail | retry | several | none (fingerprints)
 	Bit   int    // bit position for flip
 }
 
@@ -398,7 +398,11 @@ func (c *Conn) handlePlain(hs *hsState, f []byte) {
 		}
 		var w W
 		w.U32(CrcResPQ).Raw(nonce).Raw(sn).Str(new(big.Int).Mul(hs.p, hs.q).Bytes())
-		if lie.at("resPQ", "fingerprints") {
+		if lie.at("resPQ", "fingerprints") && lie.How == "none" {
+			w.U32(CrcVector).U32(0)
+		} else if lie.at("resPQ", "fingerprints") && lie.How == "several" {
+			w.U32(CrcVector).U32(3).Raw(Sha1(fp, []byte{1})[:8]).Raw(Sha1(fp, []byte{2})[:8]).Raw(Sha1(fp, []byte{3})[:8])
+		} else if lie.at("resPQ", "fingerprints") {
 			w.U32(CrcVector).U32(1).Raw(fp)
 		} else {
 			// a server may offer several keys; the client answers with the fingerprint of the one it knows.  The
